@@ -272,7 +272,8 @@ class Pushes(Driver):
         if tier == "thorough":
             self.lengths += [100000]
             self.every = [L for L in range(0, 70001) if L not in set(self.lengths)]      # one content only
-        self.fills = ["aa", SEQ32, seed_bytes(seed, "C12.push.fill", 32).hex()]
+        # the last three: runs of the byte values that have a one-byte opcode form (1..16, 0x81) - several of them in a row are ordinary data
+        self.fills = ["aa", SEQ32, seed_bytes(seed, "C12.push.fill", 32).hex(), "0102030405060708090a0b0c0d0e0f1081", "1081", "0f1081"]
         self.bound = dict(lengths="three contents: 0..1100, 65000..65600, 70000%s" % ("" if tier == "quick" else ", 100000; one content: every length 0..70000"),
                           contents=["aa..", "00 01 02 .. 1f repeated", "seed block repeated"], one_byte_payloads="all 256",
                           forms="compile_push_data + every explicit form that can hold the length")
@@ -309,6 +310,23 @@ class Pushes(Driver):
                     return BAD("push-encoding", "shortest push of %d bytes starts %s (total %d)" % (len(d), want[:5].hex(), len(want)),
                                "%s: %s" % (name, exc_str(e) if st == "exc" else "%s (total %d)" % (short(e, 8), len(e))),
                                n=n, clause="push-encoding", length=len(d))
+            # the list of items in the other shapes a caller may hold it in (a TypeError = shape not supported = outside)
+            for name, arg, w in (("tuple", (d,), want), ("iterator", iter([d]), want), ("generator", (x for x in [d]), want),
+                                 ("two items", [d, d], want + want), ("iterator of two", iter([d, d]), want + want)):
+                st, e = call(A.tools.compile_push_data_list, arg)
+                n += 1
+                if st == "exc" and isinstance(e, TypeError):
+                    continue
+                if st == "exc" or not isinstance(e, (bytes, bytearray)) or bytes(e) != w:
+                    return BAD("push-encoding", "compile_push_data_list(%s) = %d bytes starting %s" % (name, len(w), w[:5].hex()),
+                               exc_str(e) if st == "exc" else "%s (total %d)" % (short(e, 8), len(e)), n=n, clause="push-encoding:argument-shape", length=len(d))
+            # the text route: a bracketed hex data token must compile to the same shortest push
+            if d:
+                st, e = call(A.tools.compile, "[%s]" % d.hex())
+                n += 1
+                if st == "exc" or not isinstance(e, (bytes, bytearray)) or bytes(e) != want:
+                    return BAD("push-encoding", "compile('[<%d bytes hex>]') = shortest push starting %s (total %d)" % (len(d), want[:5].hex(), len(want)),
+                               exc_str(e) if st == "exc" else "%s (total %d)" % (short(e, 8), len(e)), n=n, clause="push-encoding:text-route", length=len(d))
             enc = want
         else:
             enc = R.push_form(case["form"], d)
